@@ -118,22 +118,23 @@ type Conn struct {
 }
 
 type Cluster struct {
-	w           *World
-	nodes       int
-	buckets     map[string]*Bucket
-	conns       []*Conn
-	connCount   map[string]int
-	collections map[string]uint32
-	manifestUID uint64
-	casCounter  uint64
-	deadTags    map[string]bool
-	arr         int
-	streamCount int
-	silentNodes map[int]bool
-	curArr      int
-	mgmtMode    string
-	mgmtHeld    int
-	mgmtRelease chan struct{}
+	w              *World
+	nodes          int
+	buckets        map[string]*Bucket
+	conns          []*Conn
+	connCount      map[string]int
+	collections    map[string]uint32
+	manifestUID    uint64
+	casCounter     uint64
+	deadTags       map[string]bool
+	arr            int
+	streamCount    int
+	silentNodes    map[int]bool
+	curArr         int
+	mgmtMode       string
+	zombieNotFound bool // see handle(): reads of crashed members are answered 'not found'
+	mgmtHeld       int
+	mgmtRelease    chan struct{}
 }
 
 func newCluster(w *World, nodes int) *Cluster {
@@ -306,6 +307,13 @@ func (c *Cluster) serve(cn *Conn, sv *pipeEnd) {
 			}
 		}
 		c.w.mu.Lock()
+		if cn.zombie && c.zombieNotFound && (r.Command == memd.CmdGet || r.Command == memd.CmdSubDocMultiLookup) {
+			// a dead process cannot terminate the simulation: the goroutines it left behind read "not found"
+			// (which the library tolerates everywhere) instead of timing out into a deliberate panic
+			c.w.mu.Unlock()
+			cn.write(&memd.Packet{Magic: memd.CmdMagicRes, Command: r.Command, Opaque: r.Opaque, Status: memd.StatusKeyNotFound})
+			continue
+		}
 		if cn.zombie || c.silentNodes[cn.node] {
 			c.w.mu.Unlock()
 			continue // a crashed member's traffic, or a silent node: never answered
